@@ -39,6 +39,7 @@ def _analyse(repo, pid):
         ctx = Ctx(repo, 'quick')
         chk = Check(pid, 'quick', ctx.prog)
         importlib.import_module(f'pkstatic.rules.{pid.lower()}').run(chk, ctx)
+        ctx.definite_assignment(chk)
         from .report import load_known
         known, _ = load_known()
         fails = [o.rule for o in chk.obs if not o.ok and (pid, o.rule, o.construct) not in known]
